@@ -17,7 +17,7 @@ import (
 func init() { vpRegister("vpH_C11_history", vpH_C11_history) }
 
 var vpVersion int      // which state the test's runtime inputs are in
-var vpPasses [3]bool   // the (deterministic) outcome of the test for each state
+var vpOutcome [3]int   // the (deterministic) outcome of the test for each state: 0 passes, 1 a test case fails, 2 the process aborts without writing results, 3 it writes passing results and then exits non-zero
 var vpRuns int         // how often the test process was started
 var vpRanVersion []int // ... and for which input states
 var vpLogged []core.BuildResultStatus
@@ -38,10 +38,17 @@ func vpModelDoTest(state *core.BuildState, target *core.BuildTarget, runRemotely
 	dir := target.TestDir(run)
 	os.MkdirAll(dir, 0o755)
 	content, exec := "FAIL", core.TestExecution{Failure: &core.TestResultFailure{Type: "AssertionError", Message: "1 != 2"}}
-	if vpPasses[vpVersion] {
+	switch vpOutcome[vpVersion] {
+	case 0:
 		content, exec = "PASS", core.TestExecution{}
+	case 2:
+		content, exec = "", core.TestExecution{Error: &core.TestResultFailure{Type: "Abort", Message: "exit status 2"}}
+	case 3:
+		content, exec = "PASS", core.TestExecution{Error: &core.TestResultFailure{Type: "Abort", Message: "exit status 1"}}
 	}
-	os.WriteFile(filepath.Join(dir, core.TestResultsFile), []byte(content), 0o644)
+	if content != "" {
+		os.WriteFile(filepath.Join(dir, core.TestResultsFile), []byte(content), 0o644)
+	}
 	return core.TestSuite{Name: target.Label.Name, TestCases: core.TestCases{{Name: "case", Executions: []core.TestExecution{exec}}}}, core.NewTestCoverage()
 }
 
@@ -77,8 +84,9 @@ func vpModelLogBuildError(state *core.BuildState, label core.BuildLabel, status 
 func vpH_C11_history() {
 	vpFSReset()
 	vpRuns, vpRanVersion, vpLogged = 0, nil, nil
-	for v := range vpPasses {
-		vpPasses[v] = vpNondetBool("test-passes-in-this-state")
+	states := vpBound("states")
+	for v := 0; v < states; v++ {
+		vpOutcome[v] = vpChoice("test-outcome-in-this-state", 4)
 	}
 	config := &core.Configuration{}
 	state := &core.BuildState{Config: config, Graph: core.NewGraph(), NumTestRuns: 1, XattrsSupported: true, NeedTests: true}
@@ -92,7 +100,7 @@ func vpH_C11_history() {
 	passedBefore := map[int]bool{} // input states for which a passing run has happened
 	for step := 0; step < vpBound("steps"); step++ {
 		if step > 0 {
-			vpVersion = vpChoice("inputs-now-in-state", len(vpPasses))
+			vpVersion = vpChoice("inputs-now-in-state", states)
 		}
 		// what the build step made of the target is independent of that: the runtime
 		// inputs include data files and run-time dependencies, which are not build inputs
@@ -108,7 +116,7 @@ func vpH_C11_history() {
 		res := target.Test.Results
 		vpAssert("results-present", res != nil)
 		passed := res.TestCases.AllSucceeded() && len(res.TestCases) > 0
-		vpAssert("outcome-equals-a-fresh-run-on-the-current-inputs", passed == vpPasses[vpVersion])
+		vpAssert("outcome-equals-a-fresh-run-on-the-current-inputs", passed == (vpOutcome[vpVersion] == 0))
 		ran := vpRuns > runsBefore
 		if !ran {
 			vpAssert("reused-only-a-passing-result-for-the-current-inputs", passedBefore[vpVersion] && res.Cached)
